@@ -599,14 +599,14 @@ func rangeIndex(idx ssa.Value) bool {
 		return false
 	}
 	one, ok := add.Y.(*ssa.Const)
-	if !ok || one.Int64() != 1 {
+	if !ok || safeInt64(one) != 1 {
 		return false
 	}
 	for _, e := range phi.Edges {
 		if e == idx {
 			continue
 		}
-		if k, ok := e.(*ssa.Const); ok && k.Int64() == -1 {
+		if k, ok := e.(*ssa.Const); ok && safeInt64(k) == -1 {
 			continue
 		}
 		return false
@@ -630,7 +630,7 @@ func (s *subseqChecker) check(v ssa.Value, obj ssa.Value, field int, depth int, 
 			return ""
 		}
 	case *ssa.MakeSlice:
-		if k, ok := x.Len.(*ssa.Const); ok && k.Int64() == 0 {
+		if k, ok := x.Len.(*ssa.Const); ok && safeInt64(k) == 0 {
 			s.note("make(_, 0, _)")
 			return ""
 		}
